@@ -26,6 +26,8 @@ ACCEPTED_TEXTS = [
     "def 0 { a(''); b(\"\"); c(''''''); d('\\''); e(\"\\\"\"); end; }",
     "def 0 { a(1.5, .5, -0.5, 0x1F, 0b101, 0o17, $v1, CONST_1); } /* trailing",
     "coro X { a(Position<'p', 1, 2.5>); } // no newline at the end",
+    # a backslash directly in front of a line end, inside multi-line and single-line literals and as line joining outside
+    "def 0 { a(\'\'\'line one \\\nline two\'\'\', \"\"\"x\\\n\"\"\"); b('y\\\nz', \"q\\\n\"); c(1, \\\n 2); end; }",
 ]
 PREFIX_LEN = 2
 
